@@ -14,10 +14,11 @@ VARIANTS = [
     {"location": "dsstore_parent", "spelling": "abs", "listing": 5},
     {"location": "pattern_parent", "spelling": "dot", "listing": 42},
     {"location": "x_parent", "spelling": "dotrel", "listing": 7},
+    {"location": "link_parent", "spelling": "abs", "listing": 3},
 ]
 
 
-def group_specs(scope_name, behs, seed, names_cycle=("plain", "mixed", "space")):
+def group_specs(scope_name, behs, seed, names_cycle=("plain", "mixed", "space", "case")):
     sc = scopes.SCOPES[scope_name]
     specs = []
     for k, b in enumerate(behs):
